@@ -1,5 +1,5 @@
 /*UNIT
-{"props": ["C06","C01","C09"], "kind": "K1", "tier": "quick", "timeout": 900,
+{"props": ["C06"], "kind": "K1", "tier": "quick", "timeout": 900,
  "loop_contracts": true, "cbmc": ["--unwind", "16", "--sat-solver", "cadical"],
  "extra_src": ["stubs/xxh_stub.c", "stubs/mem_ranges.c"],
  "replace": ["ZSTD_splitBlock", "ZSTD_overflowCorrectIfNeeded", "ZSTD_checkDictValidity", "ZSTD_window_enforceMaxDist",
